@@ -17,11 +17,18 @@ Hypothesis progname_nz : Forall nz_byte progname.
 Hypothesis progver_nz : val_ok progver.
 Hypothesis exec_ok : forall c o, exec_out c = ExecOut o -> Forall is_byte o /\ small o.
 Hypothesis dir_ok : forall d ns, dir_list d = DirList ns -> Forall (Forall nz_byte) ns.
+(* the functions the application registered with spifconf_register_builtin (any number, any names that are
+   C strings, in registration order behind the library's own) and what they return (NULL, or a C string
+   shorter than 4 GB) *)
+Variable extra : list (list byte * Z).
+Variable ufn : Z -> option (list byte) -> option (list byte).
+Hypothesis extra_nz : Forall (fun e => Forall nz_byte (fst e)) extra.
+Hypothesis ufn_ok : forall code a v, (forall o, a = Some o -> arg_ok o) -> ufn code a = Some v -> val_ok v.
 
-Notation xloop := (xloop genv progname progver exec_out dir_list).
-Notation lloop := (lloop genv progname progver exec_out dir_list).
-Notation shell_expand := (shell_expand genv progname progver exec_out dir_list).
-Notation shell_expand_reads := (shell_expand_reads genv progname progver exec_out dir_list).
+Notation xloop := (xloop genv progname progver exec_out dir_list extra ufn).
+Notation lloop := (lloop genv progname progver exec_out dir_list extra ufn).
+Notation shell_expand := (shell_expand genv progname progver exec_out dir_list extra ufn).
+Notation shell_expand_reads := (shell_expand_reads genv progname progver exec_out dir_list extra ufn).
 
 Lemma fresh_newbuff : repeat None CB = bytes [] ++ repeat (@None byte) CB.
 Proof. reflexivity. Qed.
@@ -33,7 +40,7 @@ Lemma reads_lloop s rest st :
 Proof.
   intros Hs Hcb Hst. unfold ExpandModel.shell_expand_reads. rewrite fresh_newbuff.
   change 0 with (Z.of_nat (@length byte [])).
-  apply xloop_lloop; [assumption|assumption|assumption|assumption|assumption|lia|assumption|assumption|apply pre_ok_nil|cbn; apply repeat_length|assumption].
+  apply xloop_lloop; [assumption|assumption|assumption|assumption|assumption|assumption|assumption|lia|assumption|assumption|apply pre_ok_nil|cbn; apply repeat_length|assumption].
 Qed.
 
 (* never reads past the terminator of its input, nor any cell that was not written: for every
@@ -44,7 +51,7 @@ Theorem expand_no_overread s rest st :
   exists r, shell_expand_reads (S (length s)) (cstr s rest) st = Ok r.
 Proof.
   intros Hs Hcb Hst. pose proof (reads_lloop s rest st Hs Hcb Hst) as H.
-  pose proof (lloop_ok genv progname progver genv_nz progname_nz progver_nz exec_out dir_list exec_ok dir_ok (S (length s)) s [] false false st
+  pose proof (lloop_ok genv progname progver genv_nz progname_nz progver_nz exec_out dir_list exec_ok dir_ok extra ufn ufn_ok (S (length s)) s [] false false st
                        ltac:(lia) Hs pre_ok_nil Hst) as Hok.
   destruct (lloop (S (length s)) s [] false false st) as [pre st'|st'|e|]; cbn [lrel] in H.
   - destruct H as (tl' & -> & _). eauto.
@@ -61,7 +68,7 @@ Theorem expand_cells_written s rest st nb j st' :
   exists pre, Z.of_nat (length pre) = j /\ firstn (Z.to_nat j) nb = bytes pre.
 Proof.
   intros Hs Hcb Hst E. pose proof (reads_lloop s rest st Hs Hcb Hst) as H.
-  pose proof (lloop_ok genv progname progver genv_nz progname_nz progver_nz exec_out dir_list exec_ok dir_ok (S (length s)) s [] false false st
+  pose proof (lloop_ok genv progname progver genv_nz progname_nz progver_nz exec_out dir_list exec_ok dir_ok extra ufn ufn_ok (S (length s)) s [] false false st
                        ltac:(lia) Hs pre_ok_nil Hst) as Hok.
   destruct (lloop (S (length s)) s [] false false st) as [pre st1|st1|e|]; cbn [lrel] in H.
   - destruct H as (tl' & E' & Hlen). rewrite E in E'. injection E' as -> -> ->.
@@ -88,7 +95,7 @@ Lemma shell_expand_lloop s rest st :
       end).
 Proof.
   intros Hs Hcb Hobj Hst. pose proof (reads_lloop s rest st Hs Hcb Hst) as H.
-  pose proof (lloop_ok genv progname progver genv_nz progname_nz progver_nz exec_out dir_list exec_ok dir_ok (S (length s)) s [] false false st
+  pose proof (lloop_ok genv progname progver genv_nz progname_nz progver_nz exec_out dir_list exec_ok dir_ok extra ufn ufn_ok (S (length s)) s [] false false st
                        ltac:(lia) Hs pre_ok_nil Hst) as Hok.
   unfold ExpandModel.shell_expand. unfold ExpandModel.shell_expand_reads in H.
   destruct (lloop (S (length s)) s [] false false st) as [pre st'|st'|e|]; cbn [lrel] in H.
@@ -116,7 +123,7 @@ Theorem expand_initialised s rest st :
     end.
 Proof.
   intros Hs Hcb Hobj Hst. rewrite (shell_expand_lloop s rest st Hs Hcb Hobj Hst).
-  pose proof (lloop_ok genv progname progver genv_nz progname_nz progver_nz exec_out dir_list exec_ok dir_ok (S (length s)) s [] false false st
+  pose proof (lloop_ok genv progname progver genv_nz progname_nz progver_nz exec_out dir_list exec_ok dir_ok extra ufn ufn_ok (S (length s)) s [] false false st
                        ltac:(lia) Hs pre_ok_nil Hst) as Hok.
   destruct (lloop (S (length s)) s [] false false st) as [pre st'|st'|e|].
   - destruct Hok as [Hpre Hst']. eexists _, st'. split; [reflexivity|]. split; [exact Hst'|].
@@ -136,7 +143,7 @@ Qed.
    argument stay below max - 1 characters *)
 Theorem expand_spec_holds s rest st :
   Forall nz_byte s -> (length s < CB)%nat -> (CB <= length (cstr s rest))%nat -> store_ok st ->
-  match expand_spec genv progname progver exec_out dir_list s st with
+  match expand_spec genv progname progver exec_out dir_list extra ufn s st with
   | SOut o st' pk =>
     Z.of_nat (length o) < maxj -> Z.of_nat pk < maxj ->
     shell_expand (S (length s)) (cstr s rest) st =
@@ -151,13 +158,13 @@ Theorem expand_spec_holds s rest st :
   end.
 Proof.
   intros Hs Hcb Hobj Hst. unfold expand_spec.
-  pose proof (lloop_sx genv progname progver genv_nz progname_nz progver_nz exec_out dir_list exec_ok dir_ok (S (length s)) s [] false false st
+  pose proof (lloop_sx genv progname progver genv_nz progname_nz progver_nz exec_out dir_list exec_ok dir_ok extra ufn ufn_ok (S (length s)) s [] false false st
                        ltac:(lia) Hs pre_ok_nil Hst) as H.
-  pose proof (sx_no_fuel genv progname progver exec_out dir_list (S (length s)) s false false st ltac:(lia)) as Hnf.
-  pose proof (lloop_ok genv progname progver genv_nz progname_nz progver_nz exec_out dir_list exec_ok dir_ok (S (length s)) s [] false false st
+  pose proof (sx_no_fuel genv progname progver exec_out dir_list extra ufn (S (length s)) s false false st ltac:(lia)) as Hnf.
+  pose proof (lloop_ok genv progname progver genv_nz progname_nz progver_nz exec_out dir_list exec_ok dir_ok extra ufn ufn_ok (S (length s)) s [] false false st
                        ltac:(lia) Hs pre_ok_nil Hst) as Hok.
   rewrite (shell_expand_lloop s rest st Hs Hcb Hobj Hst).
-  destruct (sx genv progname progver exec_out dir_list (S (length s)) s false false st) as [o st' pk|[|e] st' m pk|];
+  destruct (sx genv progname progver exec_out dir_list extra ufn (S (length s)) s false false st) as [o st' pk|[|e] st' m pk|];
     cbn [sx_rel app length Nat.add] in H; [| | |congruence].
   - intros H1 H2. rewrite (H H1 H2) in *. cbn [llres_ok] in Hok. destruct Hok as [(A & B & C) _].
     assert (Ef : lfinish o = Some o).
